@@ -681,11 +681,13 @@ FASTOR_INLINE __m128i _mm_mul_epi32x(__m128i a, __m128i b)
 
 #ifdef FASTOR_SSE2_IMPL
 FASTOR_INLINE __m128i _mm_mul_epi64(__m128i _a, __m128i _b) {
-    __m128i out;
-   for (FASTOR_INDEX i=0; i<2; i++) {
-       ((int64_t*)&out)[i] = (((int64_t*)&_a)[i])*(((int64_t*)&_b)[i]);
-   }
-    return out;
+    // go through stores/loads: casting &__m128i to int64_t* violates strict aliasing
+    int64_t a[2], b[2];
+    _mm_storeu_si128((__m128i*)a, _a);
+    _mm_storeu_si128((__m128i*)b, _b);
+    a[0] *= b[0];
+    a[1] *= b[1];
+    return _mm_loadu_si128((const __m128i*)a);
 }
 #endif
 
